@@ -3,10 +3,26 @@
 package tequila
 
 // Contracts checked by /verif (vcgo). Comment-only: no executable code.
+// C13: merging yields exactly the quotient of the graph by the merge function, without self-loops.
 
 // names of types and packages do not contain the edge separator
 //@ spec Plain(s string) bool := !Contains(s, "->")
 
 //@ func FullGraph.MergeHeaderFile
 //@ requires fullGraph != nil
+//@ requires forall k string :: {k in (*fullGraph).RelationList} (k in (*fullGraph).RelationList) ==> (*fullGraph).RelationList[k] != nil && Allocated((*fullGraph).RelationList[k])
 //@ requires forall s string :: {merge(s)} Plain(merge(s))
+//@ ensures result != nil && (*result).NodeList != nil && (*result).RelationList != nil
+//@ ensures forall s string :: {s in (*result).NodeList} (s in (*result).NodeList) <==> (exists k string :: (k in (*fullGraph).NodeList) && merge(k) == s)
+//@ ensures forall q string :: {q in (*result).RelationList} (q in (*result).RelationList) <==>
+//@    (exists k string :: (k in old((*fullGraph).RelationList)) && merge(old((*(*fullGraph).RelationList[k]).From)) != merge(old((*(*fullGraph).RelationList[k]).To)) &&
+//@        merge(old((*(*fullGraph).RelationList[k]).From)) + "->" + merge(old((*(*fullGraph).RelationList[k]).To)) == q)
+//@ loop 1 invariant (*result).NodeList != nil && (*result).RelationList != nil && nodes != nil
+//@ loop 1 invariant forall s string :: {s in (*result).NodeList} (s in (*result).NodeList) <==> (exists k string :: Visited(k) && merge(k) == s)
+//@ loop 1 invariant forall q string :: {q in (*result).RelationList} !(q in (*result).RelationList)
+//@ loop 2 invariant (*result).NodeList != nil && (*result).RelationList != nil
+//@ loop 2 invariant forall s string :: {s in (*result).NodeList} (s in (*result).NodeList) <==> (exists k string :: (k in (*fullGraph).NodeList) && merge(k) == s)
+//@ loop 2 invariant forall q string :: {q in (*result).RelationList} (q in (*result).RelationList) <==>
+//@    (exists k string :: Visited(k) && merge(old((*(*fullGraph).RelationList[k]).From)) != merge(old((*(*fullGraph).RelationList[k]).To)) &&
+//@        merge(old((*(*fullGraph).RelationList[k]).From)) + "->" + merge(old((*(*fullGraph).RelationList[k]).To)) == q)
+//@ loop 2 invariant (*fullGraph).RelationList == old((*fullGraph).RelationList)
